@@ -316,6 +316,36 @@ Proof.
   now apply (from_any_mismatch r other).
 Qed.
 
+(* ------------------------------------------------------------------ the transport offers the operations client *)
+(* iff some method of the service is an LRO -- whether that method is public or internal plays no role *)
+Lemma ops_client_iff_some_lro : forall ms,
+  has_operations_client ms = true <-> exists m r mt, In m ms /\ sm_decision m = Lro r mt.
+Proof.
+  intro ms. unfold has_operations_client. rewrite existsb_exists. split.
+  - intros [m [Hin H]]. destruct (sm_decision m) as [| |r mt|e] eqn:E; try discriminate. now exists m, r, mt.
+  - intros [m [r [mt [Hin E]]]]. exists m. split; [exact Hin|]. now rewrite E.
+Qed.
+
+Lemma ops_client_ignores_visibility : forall ms f,
+  has_operations_client (map (fun m => mkSM (f m) (sm_decision m)) ms) = has_operations_client ms.
+Proof.
+  intros ms f. unfold has_operations_client. induction ms as [|m ms IH]; simpl; [reflexivity|]. now rewrite IH.
+Qed.
+
+(* every method that hands out a future finds the client expression of its wrapping defined on the transport *)
+Lemma future_has_operations_client : forall ms m async w,
+  In m ms -> client_output async (sm_decision m) = Some (ReturnsFuture w) -> has_operations_client ms = true.
+Proof.
+  intros ms m async w Hin H. apply ops_client_iff_some_lro.
+  destruct (sm_decision m) as [| |r mt|e] eqn:E; simpl in H; try discriminate. now exists m, r, mt.
+Qed.
+
+Example ex_internal_lro :
+  has_operations_client [mkSM false Plain; mkSM true (Lro "a.R" "a.M")] = true /\
+  has_operations_client [mkSM false Plain; mkSM true Raw] = false /\
+  client_output true (Lro "a.R" "a.M") = Some (ReturnsFuture (emit_wrap true "a.R" "a.M")).
+Proof. repeat split. Qed.
+
 (* ------------------------------------------------------------------ non-vacuity *)
 Definition ex_files : list file :=
   [ mkFile "google/example/lro/v1/svc.proto" "google.example.lro.v1" ["google/longrunning/operations.proto"]
